@@ -211,6 +211,103 @@ fn check_fix_batch(idx: u64, bits: &[u32], acc: &mut Acc) {
 }
 
 // ------------------------------------------------------------------------------------------------
+// Part 1b: the other places of a property list that hold a fix_word
+// ------------------------------------------------------------------------------------------------
+
+/// Boundary fix_words: every byte in {0,1,15,16,127,128,254,255} (4096 patterns; 0x80000000 = -2048.0, which
+/// the format cannot express, is replaced by its neighbour).
+fn route_lattice() -> Vec<i32> {
+    let bs = [0u8, 1, 15, 16, 127, 128, 254, 255];
+    let mut v = vec![];
+    for a in bs {
+        for b in bs {
+            for c in bs {
+                for d in bs {
+                    let x = i32::from_be_bytes([a, b, c, d]);
+                    v.push(if x == i32::MIN { i32::MIN + 1 } else { x });
+                }
+            }
+        }
+    }
+    v
+}
+const ROUTES: [&str; 6] = ["CHARWD", "CHARHT", "CHARDP", "CHARIC", "KRN", "DESIGNSIZE"];
+const ROUTE_BATCH: usize = 256;
+
+/// One property list that carries `vals` through route `route` (and other lattice values in the neighbouring
+/// slots); printed with `display`, read with `from_pl_source_code`, the values must come back.
+fn check_route(idx: u64, route: usize, vals: &[i32], filler: &[i32], acc: &mut Acc) {
+    let case = |bad: Option<i32>| json!({"kind": "route", "route": ROUTES[route], "values": vals, "filler": filler, "bad": bad, "text": bad.map(fix::print_fix)});
+    for x in vals {
+        acc.eval();
+        if x & 0xfffff != 0 {
+            acc.nontrivial();
+        }
+        acc.count(match route {
+            0..=3 => "route_character_dimension",
+            4 => "route_kern",
+            _ => "route_design_size",
+        });
+    }
+    let r = catch(|| {
+        let mut file = tfm::pl::File::default();
+        match route {
+            0..=3 => {
+                for (k, x) in vals.iter().enumerate() {
+                    let f = |slot: usize| Some(FixWord(if slot == route { *x } else { filler[(k + slot) % filler.len()] }));
+                    file.char_dimens.insert(Char(k as u8), tfm::pl::CharDimensions { width: f(0), height: f(1), depth: f(2), italic_correction: f(3) });
+                }
+            }
+            4 => {
+                file.char_dimens.insert(Char(65), tfm::pl::CharDimensions { width: Some(FixWord(filler[0])), ..Default::default() });
+                file.char_tags.insert(Char(65), tfm::pl::CharTag::Ligature(0));
+                for (k, x) in vals.iter().enumerate() {
+                    file.char_dimens.entry(Char(k as u8)).or_insert(tfm::pl::CharDimensions { width: Some(FixWord(0)), ..Default::default() });
+                    file.lig_kern_program.instructions.push(tfm::ligkern::lang::Instruction { next_instruction: if k + 1 == vals.len() { None } else { Some(0) }, right_char: Char(k as u8), operation: tfm::ligkern::lang::Operation::Kern(FixWord(*x)) });
+                }
+            }
+            _ => file.header.design_size = FixWord(vals[0]),
+        }
+        let text = format!("{}", file.display(3, tfm::pl::CharDisplayFormat::Default));
+        let (back, warnings) = tfm::pl::File::from_pl_source_code(&text);
+        let got: Vec<Option<i32>> = match route {
+            0..=3 => (0..vals.len())
+                .map(|k| {
+                    back.char_dimens.get(&Char(k as u8)).and_then(|d| match route {
+                        0 => d.width,
+                        1 => d.height,
+                        2 => d.depth,
+                        _ => d.italic_correction,
+                    })
+                    .map(|f| f.0)
+                })
+                .collect(),
+            4 => (0..vals.len())
+                .map(|k| match back.lig_kern_program.instructions.get(k).map(|i| i.operation) {
+                    Some(tfm::ligkern::lang::Operation::Kern(f)) => Some(f.0),
+                    _ => None,
+                })
+                .collect(),
+            _ => vec![Some(back.header.design_size.0)],
+        };
+        (got, warnings.len(), text)
+    });
+    match r {
+        Err(p) => acc.fail(idx, case(None), "a property list and its parse", p.describe(), format!("printing or parsing a property list with fix_words as {} panicked", ROUTES[route])),
+        Ok((got, nwarn, text)) => {
+            for (x, g) in vals.iter().zip(&got) {
+                // an absent dimension reads as zero
+                if g.unwrap_or(0) != *x {
+                    acc.fail(idx, case(Some(*x)), format!("{x}"), format!("{g:?}; list: {}", vcore::clip(&text.replace('\n', " "), 200)), format!("the fix_word printed as {} does not come back through the PL reader", ROUTES[route]));
+                    return;
+                }
+            }
+            acc.class(&format!("{} round-trips{}", ROUTES[route], if nwarn > 0 { ", the reader warned" } else { "" }));
+        }
+    }
+}
+
+// ------------------------------------------------------------------------------------------------
 // Part 2: to_scaled
 // ------------------------------------------------------------------------------------------------
 
@@ -419,7 +516,7 @@ fn check_compress(idx: u64, values: &[i64], max: u8, acc: &mut Acc, case: &dyn F
     }
 }
 
-const EXTREME_LATTICE: [i64; 13] = [-(1 << 31) + 1, -(2047 << 20), -(1024 << 20), -3, -2, 0, 1, 2, 5, (1024 << 20) + 1, 2047 << 20, (1 << 31) - 2, (1 << 31) - 1];
+const EXTREME_LATTICE: [i64; 14] = [-(1 << 31), -(1 << 31) + 1, -(2047 << 20), -(1024 << 20), -3, -2, 0, 1, 2, 5, (1024 << 20) + 1, 2047 << 20, (1 << 31) - 2, (1 << 31) - 1];
 const LAT7: [i64; 7] = [0, 1, 2, 5, 6, 20, -3];
 const TRANSFORMS: [(i64, i64); 5] = [(1, 0), (1, -7), (3, -20), (65537, -(1 << 23)), (2, 1)];
 
@@ -549,6 +646,81 @@ fn check_next_larger(idx: u64, n: usize, f: &[u64], mask: u64, drop: bool, rever
         return;
     }
     acc.class(&format!("cycles={cycles} nonexistent={nonex} longest chain={}", want.iter().map(|c| c.len()).max().unwrap_or(0)));
+}
+
+/// Deterministic graphs on all 256 characters: link[c] for shape k.
+fn large_graph(shape: u64) -> [Option<u8>; 256] {
+    let mut g = [None; 256];
+    for c in 0..256usize {
+        g[c] = match shape {
+            0 => if c < 255 { Some((c + 1) as u8) } else { None },             // one chain of 256
+            1 => Some(((c + 1) % 256) as u8),                                  // one cycle of 256
+            2 => if c > 0 { Some((c - 1) as u8) } else { None },               // descending chain
+            3 => Some(((c + 255) % 256) as u8),                                // descending cycle
+            4 => if c != 128 { Some(128) } else { None },                      // star: 255 characters share one next-larger
+            5 => if c > 0 { Some((c / 2) as u8) } else { None },               // binary tree towards 0
+            6 => if c < 255 { Some((255 - (255 - c) / 2) as u8) } else { None }, // binary tree towards 255
+            7 => Some(((c * 5 + 1) % 256) as u8),                              // one permutation cycle of length 256
+            8 => Some(((c * 3) % 256) as u8),                                  // many cycles with tails
+            9 => Some(((c * c + 1) % 256) as u8),                              // rho-shaped components
+            10 => if c % 2 == 0 { Some((c + 1) as u8) } else { None },         // 128 chains of length 1
+            11 => if c < 254 { Some((c + 2) as u8) } else { None },            // two interleaved chains of 128
+            12 => if c < 128 { Some((c + 128) as u8) } else { Some((c - 128 + 1).min(127) as u8) }, // crossing the 7-bit boundary both ways
+            13 => if c == 255 { Some(255) } else if c >= 250 { Some((c + 1) as u8) } else { None }, // short chain into a self-loop at 255
+            14 => if c == 0 { Some(0) } else if c <= 5 { Some((c - 1) as u8) } else { None },       // short chain into a self-loop at 0
+            _ => if c % 3 == 0 { Some(((c + 3) % 256) as u8) } else { Some((c - c % 3) as u8) },    // a cycle of 86 with two leaves on every member
+        };
+    }
+    g
+}
+const LARGE_GRAPHS: u64 = 16;
+
+fn check_next_larger_large(idx: u64, shape: u64, mask: u64, drop: bool, reversed: bool, acc: &mut Acc) {
+    acc.eval();
+    acc.nontrivial();
+    acc.count("nl_256_characters");
+    let mut link = large_graph(shape);
+    // existence masks: all exist / every 4th character missing / the upper half missing; links out of missing characters are removed (domain)
+    let exists = |c: u8| match mask {
+        0 => true,
+        1 => c % 4 != 3,
+        _ => c < 128,
+    };
+    for c in 0..=255u8 {
+        if !exists(c) {
+            link[c as usize] = None;
+        }
+    }
+    let mut edges: Vec<(Char, Char)> = (0..=255u8).filter_map(|c| link[c as usize].map(|n| (Char(c), Char(n)))).collect();
+    if reversed {
+        edges.reverse();
+    }
+    let (g, _mw) = fix::next_larger(&link, &exists, drop);
+    let want: Vec<Vec<u8>> = (0..=255u8).map(|c| fix::chain(&g, c)).collect();
+    if want.iter().any(|c| c.len() >= 200) {
+        acc.count("nl_chain_of_200_or_more");
+    }
+    let case = || json!({"kind": "nextlarger-large", "shape": shape, "mask": mask, "drop": drop, "reversed": reversed});
+    let r = catch(|| {
+        let (p, _w) = NextLargerProgram::new(edges.clone().into_iter(), |c| exists(c.0), drop);
+        (0..=255u8).map(|c| p.get(Char(c)).take(300).map(|c| c.0).collect::<Vec<u8>>()).collect::<Vec<_>>()
+    });
+    match r {
+        Err(p) => acc.fail(idx, case(), "a program", p.describe(), "NextLargerProgram::new/get panicked"),
+        Ok(chains) => {
+            for (c, (want, got)) in want.iter().zip(&chains).enumerate() {
+                if got.len() > 256 {
+                    acc.fail(idx, case(), "a finite chain", format!("chain of {c} has more than 256 elements"), "next-larger chain is not finite");
+                    return;
+                }
+                if want != got {
+                    acc.fail(idx, case(), format!("chain({c}) = {want:?}"), format!("{got:?}"), "next-larger chain differs from TFtoPL §84 (links followed, cycle cut at its largest character)");
+                    return;
+                }
+            }
+            acc.class(&format!("256 characters: longest chain={}", want.iter().map(|c| c.len()).max().unwrap_or(0)));
+        }
+    }
 }
 
 fn nl_space(n: usize) -> Vec<u64> {
@@ -778,6 +950,25 @@ fn main() {
             }
         });
     }
+    // ---- part 1b: every other place of a property list that holds a fix_word
+    {
+        let lat = route_lattice();
+        let lat = &lat;
+        let nb = lat.len().div_ceil(ROUTE_BATCH) as u64;
+        let designs: Vec<i32> = lat.iter().copied().filter(|x| *x >= 1 << 20).collect();
+        let designs = &designs;
+        ctx.family("fixword-routes", &format!("{} boundary fix_words (every byte in {{0,1,15,16,127,128,254,255}}) as CHARWD / CHARHT / CHARDP / CHARIC of 256 characters per list, as KRN of a LIGTABLE (256 per list), and the {} of them >= 1.0 as DESIGNSIZE", lat.len(), designs.len()), 5 * nb + designs.len() as u64, |i, acc| {
+            if i < 5 * nb {
+                let (route, b) = ((i / nb) as usize, (i % nb) as usize);
+                let vals = &lat[b * ROUTE_BATCH..((b + 1) * ROUTE_BATCH).min(lat.len())];
+                // neighbours: values that are legal font dimensions, so that a warning about a neighbour cannot blur the route under test
+                let filler: Vec<i32> = lat.iter().copied().filter(|x| (*x as i64).abs() < 16 << 20).skip(b * 7).take(64).collect();
+                check_route(i, route, vals, &filler, acc);
+            } else {
+                check_route(i, 5, &[designs[(i - 5 * nb) as usize]], &[0], acc);
+            }
+        });
+    }
     // ---- part 2
     {
         let (vl, dl) = (&vl, &dl);
@@ -835,11 +1026,17 @@ fn main() {
         // extreme members: classes that span more than the largest fix_word (distances up to 2^32 - 2)
         let ext = &EXTREME_LATTICE;
         let eb = ext.len();
-        ctx.family("compress-extremes", &format!("every non-empty subset of {ext:?} (+-2047.999999, +-2047, +-1024, 0 and small values, negative odd sums included) x every limit 1..=|S|"), (1u64 << eb) * eb as u64, |i, acc| {
+        ctx.family("compress-extremes", &format!("every non-empty subset of {ext:?} (-2048.0, +-2047.999999, +-2047, +-1024, 0 and small values, negative odd sums included; and the empty input) x every limit 1..=|S|"), (1u64 << eb) * eb as u64, |i, acc| {
             let d = vcore::digits(i, &[1 << eb, eb as u64]);
             let set: Vec<i64> = (0..eb).filter(|k| d[0] >> k & 1 == 1).map(|k| ext[k]).collect();
             let limit = d[1] as usize + 1;
-            if set.is_empty() || limit > set.len() {
+            if set.is_empty() {
+                // the empty input, once per limit 1..=|lattice| and once with the largest limit
+                acc.count("compress_empty_input");
+                check_compress(i, &[], if limit == eb { 255 } else { limit as u8 }, acc, &|| json!({"kind": "compress", "values": [], "limit": if limit == eb { 255 } else { limit }}));
+                return;
+            }
+            if limit > set.len() {
                 return;
             }
             if set[set.len() - 1] - set[0] > i32::MAX as i64 {
@@ -854,11 +1051,19 @@ fn main() {
             let limit = limits[d[2] as usize];
             check_compress(i, &values, limit, acc, &|| json!({"kind": "compress-large", "shape": d[0], "n": 256 + d[1], "limit": limit}));
         });
-        let sizes: &[u64] = if ctx.quick() { &[300] } else { &[256, 277, 300] };
+        // both sides of the 255-class / 8-bit index limit: 254, 255, 256, 257 values (shapes 0, 1, 2, 4 are injective)
+        let sizes: &[u64] = if ctx.quick() { &[254, 255, 256, 257, 300] } else { &[254, 255, 256, 257, 277, 300] };
         ctx.family("compress-large-all-limits", &format!("the same {SHAPES} families with n in {sizes:?} x every limit 1..=255"), SHAPES * sizes.len() as u64 * 255, |i, acc| {
             let d = vcore::digits(i, &[SHAPES, sizes.len() as u64, 255]);
             let values = large_family(d[0], sizes[d[1] as usize]);
             let limit = d[2] as u8 + 1;
+            let distinct = fix::sorted_distinct(&values).len();
+            if distinct == 255 && limit >= 254 {
+                acc.count("compress_255_distinct_at_limit_254_255");
+            }
+            if distinct == 256 && limit == 255 {
+                acc.count("compress_256_distinct_at_limit_255");
+            }
             check_compress(i, &values, limit, acc, &|| json!({"kind": "compress-large", "shape": d[0], "n": sizes[d[1] as usize], "limit": limit}));
         });
     }
@@ -876,6 +1081,18 @@ fn main() {
             });
         }
     }
+    ctx.family("nextlarger-256", &format!("{LARGE_GRAPHS} deterministic graphs on all 256 characters (chains and cycles of 256 in both directions, star, binary trees, permutation cycles, rho shapes, interleaved chains, 7-bit boundary crossings, self-loops at 0 and 255) x 3 existence masks x drop/keep x edge order"), LARGE_GRAPHS * 3 * 2 * 2, |i, acc| {
+        let d = vcore::digits(i, &[LARGE_GRAPHS, 3, 2, 2]);
+        check_next_larger_large(i, d[0], d[1], d[2] == 1, d[3] == 1, acc);
+    });
+    ctx.require("route_character_dimension", "a fix_word carried as CHARWD/CHARHT/CHARDP/CHARIC");
+    ctx.require("route_kern", "a fix_word carried as KRN");
+    ctx.require("route_design_size", "a fix_word carried as DESIGNSIZE");
+    ctx.require("compress_empty_input", "compress of no values");
+    ctx.require("compress_255_distinct_at_limit_254_255", "exactly 255 distinct values with limit 254 or 255 (largest 8-bit index)");
+    ctx.require("compress_256_distinct_at_limit_255", "exactly 256 distinct values with limit 255");
+    ctx.require("nl_256_characters", "a next-larger graph on all 256 characters");
+    ctx.require("nl_chain_of_200_or_more", "a next-larger chain of 200 or more characters");
     ctx.require("seven_digit_fraction", "a fix_word whose text needs a 7th fraction digit (the only texts that reach the rounding branch `delta > 2^20` of TFtoPL §42)");
     ctx.require("negative_with_fraction", "a negative fix_word with a non-zero fraction (borrow in TFtoPL §43)");
     ctx.require("beyond_16", "a fix_word of magnitude >= 16.0 (integer parts of 2-4 digits)");
@@ -908,6 +1125,12 @@ fn replay(case: &Value, acc: &mut Acc) {
         Some("compress-large") => {
             let values = large_family(u("shape"), u("n"));
             check_compress(0, &values, u("limit") as u8, acc, &|| case.clone());
+        }
+        Some("nextlarger-large") => check_next_larger_large(0, u("shape"), u("mask"), case["drop"].as_bool().unwrap_or(true), case["reversed"].as_bool().unwrap_or(false), acc),
+        Some("route") => {
+            let g = |k: &str| -> Vec<i32> { case[k].as_array().map(|a| a.iter().filter_map(|v| v.as_i64()).map(|v| v as i32).collect()).unwrap_or_default() };
+            let route = ROUTES.iter().position(|r| Some(*r) == case["route"].as_str()).unwrap_or(0);
+            check_route(0, route, &g("values"), &g("filler"), acc);
         }
         Some("nextlarger") => {
             let f: Vec<u64> = case["f"].as_array().map(|a| a.iter().filter_map(|v| v.as_u64()).collect()).unwrap_or_default();
